@@ -521,3 +521,9 @@ def key_coverage(rep, repo, cmod, f, nodevar, implvar, node_loop, line_loop, in_
     rep.floor('implementation graphs', n_graph, 260)
     rep.floor('implementation shape classes', len(shapes), 6)
     rep.note(f'substitute key coverage: {n_graph} graphs, {len(shapes)} shape classes, {n_eval} feasible node_map reads evaluated')
+
+
+def thorough(rep, repo):
+    """Thorough tier: the quick rules plus checker self-validation on the C10 slice of the mutation corpus."""
+    from kvstatic import thorough as thorough_mod
+    thorough_mod.selftest_slice(rep, repo, 'C10')
